@@ -1006,12 +1006,7 @@ where
             JSXElementName::JSXMemberExpr(JSXMemberExpr { prop, .. }) => &*prop.sym,
             JSXElementName::JSXNamespacedName(JSXNamespacedName { name, .. }) => &*name.sym,
         };
-        let should_transformed_to_slots = !self
-            .vue_imports
-            .get(FRAGMENT)
-            .map(|ident| &*ident.sym == name)
-            .unwrap_or_default()
-            && name != KEEP_ALIVE;
+        let should_transformed_to_slots = !is_fragment_name(name) && name != KEEP_ALIVE;
 
         if matches!(element_name, JSXElementName::JSXMemberExpr(..)) {
             should_transformed_to_slots
@@ -1454,6 +1449,15 @@ where
             Expr::Lit(Lit::Str(quote_str!(name.sym.clone()))),
         );
     }
+}
+
+/// `Fragment`, `_Fragment`, `Fragment2`, ... take an array of children, never slots
+/// (the same rule as `@vue/babel-plugin-jsx`), wherever they appear in the module.
+fn is_fragment_name(name: &str) -> bool {
+    let name = name.strip_prefix('_').unwrap_or(name);
+    name.strip_prefix(FRAGMENT)
+        .map(|rest| rest.bytes().all(|byte| byte.is_ascii_digit()))
+        .unwrap_or_default()
 }
 
 fn inject_define_component_option(call: &mut CallExpr, name: &'static str, value: Expr) {
